@@ -41,6 +41,48 @@ def validate_traces(ctx, files, spec="Trace_LRU", workers=8):
         return list(ex.map(one, files))
 
 
+def apalache_inductive(ctx):
+    """Optional strengthening (never a verdict): Apalache checks that IndInv of spec/IndLRU.tla is inductive
+    (Init => IndInv; IndInv /\\ Next => IndInv'), i.e. the LRU invariants hold after histories of ANY length for
+    4 keys x 2 values x cap 0..4, and that IndInit is satisfiable by an interesting state (probe must be violated).
+    The Apalache variant of LRU.tla is derived textually (EXTENDS SequencesExt -> Apalache fold) so there is one source."""
+    import shutil, subprocess, time
+    if not shutil.which("apalache-mc"):
+        return dict(status="skipped: apalache-mc not found")
+    d = ctx.path("apa")
+    os.makedirs(d, exist_ok=True)
+    src = open(os.path.join(ctx.spec_dir(), "LRU.tla")).read()
+    ext = "EXTENDS Integers, Sequences, FiniteSets, SequencesExt"
+    if ext not in src:
+        return dict(status="skipped: LRU.tla EXTENDS line changed")
+    src = src.replace(ext, "EXTENDS Integers, Sequences, FiniteSets, Apalache\n\\* @type: Seq(Str) => Set(Str);\n"
+                      "Range(s) == LET \\* @type: (Set(Str), Str) => Set(Str);\n                Add(acc, x) == acc \\cup {x}\n"
+                      "            IN ApaFoldSeqLeft(Add, {}, s)")
+    open(os.path.join(d, "LRU.tla"), "w").write(src)
+    shutil.copy(os.path.join(ctx.spec_dir(), "IndLRU.tla"), d)
+    out = {}
+    t0 = time.time()
+    for name, args, want in (("init_implies_inv", ["--init=Init", "--inv=IndInv", "--length=0"], "OK"),
+                             ("inductive_step", ["--init=IndInit", "--inv=IndInv", "--length=1"], "OK"),
+                             ("probe_reachable_from_indinit", ["--init=IndInit", "--inv=ProbeFull", "--length=0"], "ERROR (12)")):
+        cmd = ["apalache-mc", "check", "--out-dir=" + os.path.join(d, "out"), "--cinit=CInit", "--next=Next"] + args + ["IndLRU.tla"]
+        try:
+            r = subprocess.run(cmd, cwd=d, stdout=subprocess.PIPE, stderr=subprocess.STDOUT, text=True, timeout=300, env=ctx.env())
+        except subprocess.TimeoutExpired:
+            return dict(status="skipped: apalache timed out on " + name)
+        got = [l for l in r.stdout.splitlines() if l.startswith("EXITCODE:")]
+        got = got[-1].split(":", 1)[1].strip() if got else "none"
+        out[name] = got
+        if got != want:
+            ctx.note("apalache %s: expected %s, got %s (not a verdict)" % (name, want, got))
+            out["status"] = "unexpected result in " + name
+            return out
+    out["status"] = "IndInv inductive for 4 keys x 2 values x cap 0..4 (any history length)"
+    out["wall_s"] = round(time.time() - t0, 1)
+    ctx.log("apalache: " + out["status"])
+    return out
+
+
 def slice_of(events, line):
     """the reset..reset slice that contains 1-based line"""
     i = min(line, len(events)) - 1
@@ -62,6 +104,8 @@ def run(ctx):
 
     # 1. design check
     mc = ctx.tlc("LRU", "MC_LRU", workers=8, coverage=not quick)
+    apa_ex = ThreadPoolExecutor(max_workers=1)
+    apa_f = apa_ex.submit(apalache_inductive, ctx)   # runs beside the replay/trace steps; never a verdict
     # 2. model -> code: one implementation test per transition
     gen = ctx.tlc("Gen_LRU", "Gen_LRU", workers=1)
     edges = gen.vecs.get("EDGE", [])
@@ -145,6 +189,10 @@ def run(ctx):
             ctx.candidate(sig, "recorded LRU step not allowed by the model at event %d of its trace: %s (after %s)" % (
                 pos, json.dumps(bad), json.dumps(sl[max(0, pos - 2):pos])), dict(kind="trace", events=sl, failing=pos))
 
+    try:
+        apa = apa_f.result(timeout=900)
+    except Exception as e:  # noqa
+        apa = dict(status="skipped: %s" % e)
     cov = dict(
         states=ctx.states, transitions=ctx.transitions,
         traces_validated_against_impl=traces,
@@ -159,6 +207,7 @@ def run(ctx):
         exhaustive=True,
         samples=[edges[len(edges) // 2], sample],
         mc_distinct_states=mc.distinct,
+        apalache_inductive_invariant=apa,
     )
     if not quick and mc.coverage_zero:
         raise MachineryError("vacuous: actions never taken in MC_LRU: %s" % mc.coverage_zero[:5])
